@@ -55,6 +55,14 @@ type createClientCall struct {
 	err  error
 }
 
+// redirection is a request which must be sent again to another host, as told
+// by a MOVED or ASK response.
+type redirection struct {
+	req  *simpleRequest
+	kind string
+	addr string
+}
+
 type upstream struct {
 	cfg    *config
 	hosts  *host.Set
@@ -65,6 +73,12 @@ type upstream struct {
 	clients           atomic.Value // map[string]*client
 	clientsMu         sync.Mutex
 	createClientCalls sync.Map // map[string]*createClientCall
+
+	// redirections received by the backend clients and not yet handled.
+	redirs       []redirection
+	redirsMu     sync.Mutex
+	redirsClosed bool
+	redirsCh     chan struct{}
 
 	slots               [slotNum]*instance
 	slotsRefreshCh      chan struct{}
@@ -83,6 +97,7 @@ func newUpstream(cfg *config, hosts []*host.Host, logger log.Logger, stats *proc
 		stats:          stats,
 		hkc:            hotkey.NewCollector(50),
 		slotsRefreshCh: make(chan struct{}, 1),
+		redirsCh:       make(chan struct{}, 1),
 		quit:           make(chan struct{}),
 		done:           make(chan struct{}),
 	}
@@ -101,6 +116,11 @@ func (u *upstream) Serve() {
 		defer wg.Done()
 		u.hkc.Run(u.quit)
 	}()
+	redirsDone := make(chan struct{})
+	go func() {
+		defer close(redirsDone)
+		u.loopRedirect()
+	}()
 	wg.Wait()
 
 	// stop all clients
@@ -110,6 +130,9 @@ func (u *upstream) Serve() {
 		c.Stop()
 	}
 	u.clientsMu.Unlock()
+	// NOTE: The redirect loop may be blocked in sending to a client, it's
+	// only woken by the stop of that client.
+	<-redirsDone
 	close(u.done)
 }
 
@@ -345,24 +368,82 @@ func (u *upstream) handleRedirection(req *simpleRequest, resp *RespValue) {
 		return
 	}
 	hostAddr := err[2]
-	switch strings.ToLower(err[0]) {
-	case MOVED:
-		u.stats.Counter("moved").Inc()
-		u.MakeRequestToHost(hostAddr, req)
-	case ASK:
-		askingReq := newSimpleRequest(newArray(
-			*newBulkString(ASKING),
-		))
-		u.MakeRequestToHost(hostAddr, askingReq)
-		vhook.At("redis.upstream.ask.between")
-		u.MakeRequestToHost(hostAddr, req)
+	kind := strings.ToLower(err[0])
+	switch kind {
+	case MOVED, ASK:
 	default:
 		// The caller matches the prefix with unicode case folding, so it
 		// could be neither of them (e.g. "A\u017fK"), pass the error through.
 		req.SetResponse(resp)
 		return
 	}
+
+	// NOTE: It's called by the reader of a backend client, which must never
+	// wait for another client (full queues) or for the creation of one: two
+	// readers waiting for each other never wake up, and a waiting reader
+	// blocks the stop of its client. So only queue the request here, it's
+	// sent by the redirect loop.
+	u.redirsMu.Lock()
+	if u.redirsClosed {
+		u.redirsMu.Unlock()
+		req.SetResponse(newError(upstreamExited))
+		return
+	}
+	u.redirs = append(u.redirs, redirection{req: req, kind: kind, addr: hostAddr})
+	u.redirsMu.Unlock()
+	select {
+	case u.redirsCh <- struct{}{}:
+	default:
+	}
 	u.triggerSlotsRefresh()
+}
+
+// loopRedirect sends the redirected requests to their new hosts, in the order
+// the redirections were received.
+func (u *upstream) loopRedirect() {
+	for {
+		select {
+		case <-u.quit:
+			u.redirsMu.Lock()
+			u.redirsClosed = true
+			redirs := u.redirs
+			u.redirs = nil
+			u.redirsMu.Unlock()
+			for _, r := range redirs {
+				r.req.SetResponse(newError(upstreamExited))
+			}
+			return
+		case <-u.redirsCh:
+		}
+
+		for {
+			u.redirsMu.Lock()
+			redirs := u.redirs
+			u.redirs = nil
+			u.redirsMu.Unlock()
+			if len(redirs) == 0 {
+				break
+			}
+			for _, r := range redirs {
+				u.redirect(r)
+			}
+		}
+	}
+}
+
+func (u *upstream) redirect(r redirection) {
+	switch r.kind {
+	case MOVED:
+		u.stats.Counter("moved").Inc()
+		u.MakeRequestToHost(r.addr, r.req)
+	case ASK:
+		askingReq := newSimpleRequest(newArray(
+			*newBulkString(ASKING),
+		))
+		u.MakeRequestToHost(r.addr, askingReq)
+		vhook.At("redis.upstream.ask.between")
+		u.MakeRequestToHost(r.addr, r.req)
+	}
 }
 
 func (u *upstream) handleClusterDown(req *simpleRequest, resp *RespValue) {
